@@ -9,7 +9,7 @@ pub fn run(suite: &str, rng: &mut Rng, ctx: &mut Ctx) {
     match suite {
         "mal" => mal(rng, ctx), "prefix" => prefix(rng, ctx), "irr" => irr(rng, ctx), "inc" => inc(rng, ctx), "frag" => frag(rng, ctx),
         "newer" => newer(rng, ctx), "maxver" => maxver(rng, ctx), "norm" => norm(rng, ctx), "pread" => pread(rng, ctx), "pprefix" => pprefix(rng, ctx),
-        "consts" => consts(ctx), "fixtures" => fixtures(ctx),
+        "consts" => consts(ctx), "fixtures" => fixtures(ctx), "pmodel" => pmodel(rng, ctx),
         _ => { eprintln!("unknown suite {suite}"); std::process::exit(2); }
     }
 }
@@ -546,5 +546,74 @@ fn fixtures(ctx: &mut Ctx) {
         if let Some(g) = &g { if g.start.slippi.version <= slippi::MAX_SUPPORTED_VERSION { let mut c = Case::new(format!("rt {}", hex(&b)), String::new()); c.tags = vec![format!("fixture-rt:{}", name)];
             match write_slp(g) { Ok(y) => { c.impl_out = format!("ok {}", hex(&y)); check_c17(g, &y, &mut c); } Err(e) => { c.impl_out = e.clone(); c.fail("C17", format!("{}: accepted game cannot be written: {}", name, e)); } }
             ctx.push(c); } }
+    }
+}
+
+// ------------------------------------------------------------------ .slpp reader against its model over the abstract archive
+
+/// what the Arrow IPC stream reader yields on the content of a `frames.arrow` entry (after the 8-byte magic)
+fn arrow_states(c: &[u8]) -> String {
+    use arrow2::io::ipc::read::{read_stream_metadata, StreamReader, StreamState};
+    if c.len() < 8 { return "f".into(); }
+    let res = std::panic::catch_unwind(|| {
+        let mut rd = Cursor::new(&c[8..]);
+        let md = match read_stream_metadata(&mut rd) { Ok(m) => m, Err(_) => return vec!["f".to_string()] };
+        let mut out = vec![];
+        for r in StreamReader::new(rd, md, None) { match r { Ok(StreamState::Some(ch)) => out.push(format!("c{}", ch.len())), Ok(StreamState::Waiting) => { out.push("w".into()); break; } Err(_) => { out.push("f".into()); break; } } if out.len() > 4 { break; } }
+        out
+    });
+    match res { Ok(v) => v.join(","), Err(_) => "p".into() }
+}
+
+fn pmodel(rng: &mut Rng, ctx: &mut Ctx) {
+    let go = GenOpts { max_frames: 4, newer: false, force: None };
+    for k in 0..ctx.n {
+        let (r, tags) = loop { let kk = k + (rng.next() % 3) as usize * 1000; let (r, t) = gen_replay(rng, kk, &go); if !slots_of(&r.start_block).is_empty() { break (r, t); } };
+        let b = encode(&r);
+        let a = match std::panic::catch_unwind(|| to_slpp(&b, [None, Some(arrow2::io::ipc::write::Compression::LZ4)][k % 2], k % 3 == 0)) { Ok(Ok(a)) => a, _ => continue };
+        let mut es = tar_entries(&a);
+        // mutate the entry list
+        let mut what = vec![];
+        for _ in 0..(rng.next() % 3) {
+            let n = es.len(); if n == 0 { break; }
+            let i = (rng.next() as usize) % n;
+            match rng.next() % 12 {
+                0 => { es.remove(i); what.push("drop"); }
+                1 => { let e = es[i].clone(); es.insert((rng.next() as usize) % (n + 1), e); what.push("dup"); }
+                2 => { let j = (rng.next() as usize) % n; es.swap(i, j); what.push("swap"); }
+                3 => { es.insert((rng.next() as usize) % (n + 1), (["notes.txt", "x/peppi.json.bak", "frames.arrow.old"][(rng.next() % 3) as usize].to_string(), rng.nbytes(300))); what.push("other"); }
+                4 => { if let Some(e) = es.iter_mut().find(|e| e.0 == "peppi.json") { let v = [(2u8,0u8,0u8),(1,9,9),(2,0,1),(3,0,0),(0,0,0),(1,255,255)][(rng.next() % 6) as usize]; if let Ok(serde_json::Value::Object(mut pj)) = serde_json::from_slice::<serde_json::Value>(&e.1) { pj.insert("version".into(), serde_json::json!([v.0, v.1, v.2])); e.1 = serde_json::to_vec(&pj).unwrap(); what.push("version"); } } }
+                5 => { if let Some(e) = es.iter_mut().find(|e| e.0 == "peppi.json") { e.1 = [&b"{"[..], &b"{\"version\":\"2.0.0\"}"[..], &b"[]"[..], &b"{\"version\":[2,0,0],\"quirks\":{\"double_game_end\":true}}"[..]][(rng.next() % 4) as usize].to_vec(); what.push("peppijson"); } }
+                6 => { if let Some(e) = es.iter_mut().find(|e| e.0 == "metadata.json") { e.1 = [&b"null"[..], &b"{}"[..], &b"[1]"[..], &b"{\"a\":"[..], &b"3"[..]][(rng.next() % 5) as usize].to_vec(); what.push("metadata"); } }
+                7 => { if let Some(e) = es.iter_mut().find(|e| e.0 == "gecko_codes.raw") { let l = [0usize, 1, 3, 4, 5][(rng.next() % 5) as usize]; e.1.truncate(l); what.push("gecko-short"); } else { es.push(("gecko_codes.raw".into(), rng.nbytes(7))); what.push("gecko-add"); } }
+                8 => { if let Some(e) = es.iter_mut().find(|e| e.0 == "frames.arrow") { match rng.next() % 4 { 0 => { e.1[0] ^= 1; } 1 => { let l = e.1.len(); e.1.truncate((rng.next() as usize) % l); } 2 => { e.1.truncate(8); } _ => { let l = e.1.len(); let cut = l - 1 - (rng.next() as usize) % 600.min(l - 1); e.1.truncate(cut); } } what.push("frames"); } }
+                9 => { if let Some(e) = es.iter_mut().find(|e| e.0 == "start.raw") { let l = e.1.len(); e.1.truncate((rng.next() as usize) % l); what.push("start-short"); } }
+                10 => { if let Some(e) = es.iter_mut().find(|e| e.0 == "end.raw") { e.1 = rng.nbytes(8); what.push("end-odd"); } }
+                _ => {}
+            }
+        }
+        let skip = k % 4 == 3;
+        let trailer = k % 5 != 4;
+        let mut a2 = tar_build(&es);
+        if !trailer { // drop the end-of-archive marker (and the record padding) entirely, or keep only its first block
+            let data_end: usize = es.iter().map(|e| 512 + (e.1.len() + 511) / 512 * 512).sum();
+            a2.truncate(data_end + if k % 2 == 0 { 0 } else { 512 });
+        }
+        // the abstract archive: each entry passed through the external decoder the reader hands it to
+        let toks: Vec<String> = es.iter().map(|(name, c)| match name.as_str() {
+            "peppi.json" => match serde_json::from_slice::<peppi::io::peppi::Peppi>(c) { Ok(p) => format!("pj:ok:{}:{}:{}", (p.version >= peppi::io::peppi::Version(2, 0, 0)) as u8, p.slp_hash.clone().unwrap_or("-".into()), p.quirks.map_or("-".to_string(), |q| (q.double_game_end as u8).to_string())), Err(_) => "pj:err".into() },
+            "metadata.json" => match serde_json::from_slice::<serde_json::Value>(c) { Ok(serde_json::Value::Object(_)) => "md:obj".into(), Ok(serde_json::Value::Null) => "md:null".into(), _ => "md:bad".into() },
+            "start.raw" => format!("sr:{}", hex(c)), "end.raw" => format!("er:{}", hex(c)), "gecko_codes.raw" => format!("gk:{}", hex(c)),
+            "frames.arrow" => format!("fa:{}:{}", (c.len() >= 8 && &c[..8] == b"ARROW1\0\0") as u8, arrow_states(c)),
+            _ => "ot".into() }).collect();
+        let o = peppi::io::peppi::de::Opts { skip_frames: skip };
+        let res = with_watchdog(20, move || std::panic::catch_unwind(|| peppi::io::peppi::read(Cursor::new(&a2), Some(&o)).map(|g| format!("ok v={}.{}.{} end?={} meta={} gecko={} frames={} hash={} quirks={}",
+            g.start.slippi.version.0, g.start.slippi.version.1, g.start.slippi.version.2, g.end.is_some(), if g.metadata.is_some() { "some" } else { "none" },
+            g.gecko_codes.as_ref().map_or("none".to_string(), |c| format!("({},{})", c.actual_size, c.bytes.len())), g.frames.id.len(), g.hash.clone().unwrap_or("none".into()), g.quirks.map_or("none".to_string(), |q| q.double_game_end.to_string()))).map_err(|e| e.to_string())));
+        let mut c = Case::new(format!("pread {} {} {}", skip as u8, trailer as u8, toks.join(";")), String::new());
+        match res { None => { c.impl_out = "hang".into(); c.fail("C07", ".slpp reader did not return within 20 s"); } Some(Err(_)) => { c.impl_out = "panic".into(); c.fail("C07", format!(".slpp reader panicked on a modified archive ({:?})", what)); }
+            Some(Ok(Err(e))) => c.impl_out = format!("err {}", e), Some(Ok(Ok(s))) => c.impl_out = s }
+        c.tags = tags; for w in &what { c.tags.push(format!("mut:{}", w)); } c.tags.push(format!("trailer{}", trailer as u8)); c.tags.push(format!("pskip{}", skip as u8));
+        ctx.push(c);
     }
 }
